@@ -288,6 +288,10 @@ def _impl(op):
 
 def run(chk, driver, tier):
     rng = chk.rng
+    # the COMPOSED model of the whole command (Model/Update.lean, theorems Props/Update.lean) against the real CLI: exit code, event trace and
+    # every configured file afterwards, on generated projects x the flag/config lattice x tag and status listings x faults x failure positions
+    import props.updfull as updfull
+    updfull.run(chk, driver, 1500 if tier == "thorough" else 40)
     n = 3000 if tier == "thorough" else 160
     chk.extra["rule"] = ("random points of the lattice config commit/tag/push x tri-state flags x hooks {absent, ok, fail} (config or CLI) x dirty x --allow-dirty x tag message x remote "
                          "{branch, url, none} x --dry x fetch x scope x --set-version x gate/uniqueness/rewrite outcomes x failure position {none, 0..15} x {git, hg}; "
